@@ -413,6 +413,14 @@ class Fn:
             l2 = op_local(d[3]["op"])
             if l2 is not None:
                 return self.copy_root(l2, depth + 1)
+            # `let (a, b) = (x, y);`: a field read of a tuple built once from plain values is that value
+            pl = op_place(d[3]["op"])
+            if pl is not None and len(pl[1]) == 1 and pl[1][0][0] == "field":
+                td = self.single_def(pl[0])
+                if td and td[0] == "assign" and td[3]["k"] == "aggregate" and td[3].get("akind") == "tuple" and pl[1][0][1] < len(td[3]["ops"]):
+                    l3 = op_local(td[3]["ops"][pl[1][0][1]])
+                    if l3 is not None:
+                        return self.copy_root(l3, depth + 1)
         return local
 
     # -- slices -------------------------------------------------------------------------
